@@ -3,7 +3,7 @@
    (|a-b| <= atol + rtol(|a|+|b|)).  `failing` returns 2*id for a disagreement and 2*id+1 for a case the model
    flags as ill-conditioned (a numerator that is a cancelling sum next to the clipping threshold): skipped, counted. *)
 From Coq Require Import List Arith ZArith QArith Qabs Qround Bool.
-From TLV Require Import Base.Shape Base.PyList Base.Tensor Base.Ops Model.Nonneg Corr.Common.
+From TLV Require Import Base.Shape Base.PyList Base.Tensor Base.Ops Model.Nonneg Model.NonnegSign Corr.Common.
 Import ListNotations.
 
 Definition qmat := list (list Q).
@@ -174,7 +174,10 @@ Inductive op :=
 (* parafac2(slices, init=(w, Fs, projections), n_iter_max=1, nn_modes='all', linesearch=False, n_iter_parafac=nip): T = recorded projected tensor *)
 | OP2Iter (T : tensor Q) (w : list Q) (Fs : list qmat) (nip : nat) (nm : bool) (tol : Q)
 (* _BroThesisLineSearch.line_step extrapolation + clipping *)
-| OLine (nn : list nat) (jump : Q) (last cur : list qmat).
+| OLine (nn : list nat) (jump : Q) (last cur : list qmat)
+(* corr:C10-static -- the body of an entry point, regenerated from the current Python source by the ast translator (harness/props/C10_sign.py):
+   the sign analysis of Model/NonnegSign.v must establish that the returned decomposition is entrywise >= 0 (verdict 0) *)
+| OSign (prog : list stmt) (a0 : aenv) (ret : sx).
 
 Inductive out := OutMats (w : list Q) (Fs : list qmat) | OutSkip.
 
@@ -240,6 +243,7 @@ Definition run (o : op) : out :=
       let b := p2iter_fx T w Fs nip nm (tol * (1000001 # 1000000)) in
       if pair_close a b then OutMats (fst a) (snd a) else OutSkip
   | OLine nn jump last cur => OutMats [] (line_step Qops nn jump last cur)
+  | OSign prog a0 ret => OutMats [inject_Z (Z.of_nat (sign_verdict prog a0 ret))] []
   end.
 
 Definition case := (nat * op * Q * list Q * list qmat)%type.   (* id, call, atol, implementation's weights/core/vector, matrices *)
